@@ -37,7 +37,7 @@ class A(Adapter):
         return [
             cfg("j20m10", True, gen="random", j=20, m=10, o=8, d=6),
             cfg("j3m2", True, gen="random", j=3, m=2, o=3, d=2),
-            cfg("toy", gen="toy", j=5, m=4, o=4, d=4),
+            cfg("toy", c02=True, gen="toy", j=5, m=4, o=4, d=4),
             cfg("j6m3", gen="random", j=6, m=3, o=4, d=5),
             cfg("j2m4", gen="random", j=2, m=4, o=5, d=3),
         ]
